@@ -703,7 +703,6 @@ KEEP += KEEP_AGENTS
 # rewrites by independent authors that are NOT silent yet (the checks report them or stop): kept in the catalogue, reported as
 # open by tools/run_selftest.py, one reason each (DESIGN 8.5, eighth campaign)
 OPEN_REWRITES = {
-    'R02-4': 'rows 4..7 of the candidate table generated in a loop from rows 0..3: the table is read from one array aggregate',
     'R03-2': 'forward_with_joint_poses as a table of (offset, axis, angle) and a loop filling [Pose; 6]: R03.1/R03.2 read the six chained products',
     'R04-3': 'near-normaliser as a value-returning fn applied through array::from_fn: role and call sites are read as fn(&mut f64, f64)',
     'R12-2': 'flags of a Cartesian extension by split_last + extend, RRT gap by find_map: R12.5 reads the per-item flag choice',
